@@ -49,7 +49,7 @@ CLAIMS = {
 
 CLAIMS["C19"] = ("proof: the V1 repair loop (first coded row with exactly one missing covered fragment, repeated) recovers exactly the least fixed point of single-missing peeling, independent of scan order (fragment-set level); byte-level models of both V1 implementations are compared with the crates (results, every program / erase) on generated deliveries in three builds, with a peeling-decoder oracle, repaired = original, final image, duplicates are no-ops, both implementations complete at the same fragment, and power loss at every operation boundary + recovery for the flash-algo-new variant.",
          "6 C19", "Coq proof (peeling fixed point) + differential naive / orig streams with peeling oracle and crash enumeration")
-CLAIMS["C20"] = ("proof: for every slot count and every consistent ring (any rotation, fill level, starting number incl. the 2^32-1 wrap) find_oldest_slot returns the first blank position after the newest slot (oldest image on a full ring) and the successor sequence number, next_seq never produces the reserved value; every consistent ring state for 3..6 slots is created on SimNor and start / app_boot_status are executed on the real crate and the model; fragment writes for index / size / slot classes are checked against slot bounds.",
+CLAIMS["C20"] = ("proof: for every slot count and every consistent ring (any rotation, fill level, starting number incl. the 2^32-1 wrap) find_oldest_slot returns the first blank position after the newest slot (oldest image on a full ring) and the successor sequence number, next_seq never produces the reserved value, the two allocations of start take the two positions after the newest slot with the next two numbers and keep the ring consistent; every consistent ring state for 3..6 slots is created on SimNor and start / app_boot_status (after a start and on its own, with in-progress headers at chosen positions) are executed on the real crate and the model; fragment writes for index / size / slot classes are checked against slot bounds.",
          "6 C20", "Coq proof (ring arithmetic) + exhaustive ring-state enumeration for 3..6 slots, differential orig stream")
 
 checks = []
